@@ -450,8 +450,13 @@ public:
       uf_domain_t right(o);
       typename ttbl_t::term_map_t gen_map /*unused*/;
 
+      // A variable that only appears in right is unconstrained in
+      // left: give it a fresh term so that it is compared too.
+      for (auto p : right.m_var_map) {
+        left.term_of_var(p.first);
+      }
+
       // Build up the mapping of right onto left, variable by variable.
-      // Assumption: the set of variables in left & right are common.
       for (auto p : left.m_var_map) {
         if (!left.m_ttbl.map_leq(right.m_ttbl, left.term_of_var(p.first),
                                  right.term_of_var(p.first), gen_map))
